@@ -95,7 +95,8 @@ def run_property(pid, tier, seed):
     t0 = time.time()
     mod = importlib.import_module(f'contracts.{pid.lower()}')
     timeout_ms = 10000 if tier == 'quick' else 60000
-    units = [U() for U in mod.UNITS]
+    from contracts.axioms import AXIOM_UNITS          # the engine's assumptions about the library's own classes, re-checked against the text on every run
+    units = [U() for U in list(mod.UNITS) + [a for a in AXIOM_UNITS if a not in mod.UNITS]]
     all_obls = []
     unit_results = []
     undecided = []
